@@ -100,11 +100,12 @@ namespace fsw
         using value_type = CT;
         using difference_type = std::ptrdiff_t;
         using pointer = const CT*;
-        using reference = CT;
+        using reference = const CT&;
         uint64_t i = 0;
+        mutable CT cur = CT();      // (dereferencing yields an lvalue, as code that takes &*it expects of a random-access iterator)
         Counting() {}
         explicit Counting(uint64_t k) : i(k) {}
-        CT operator*() const { return static_cast<CT>('a' + i % 4); }
+        reference operator*() const { cur = static_cast<CT>('a' + i % 4); return cur; }
         CT operator[](difference_type d) const { return static_cast<CT>('a' + (i + static_cast<uint64_t>(d)) % 4); }
         Counting& operator++() { ++i; return *this; }
         Counting operator++(int) { Counting t(*this); ++i; return t; }
